@@ -1,5 +1,6 @@
 """C19 through the model: `implementation = model` on exactly the spec cases that RTV/Props/C19.lean proves
-`model = spec` for (Specs/Sequence/*/IpAddressModel*.json, GUIDModel*.json, Specs/Choice/English/BooleanModel*.json,
+`model = spec` for (Specs/Sequence/*/IpAddressModel*.json, GUIDModel*.json, HashtagModel / MentionModel / EmailModel / URLModel,
+Specs/Choice/English/BooleanModel*.json,
 Python-supported cases).  Call `model_cases(ctx)` from corr/c19.py; add `RTV.Props.C19` to PROPS_MODULES, the names
 in THEOREMS to REQUIRED_THEOREMS and the names in GEN to GEN.
 
@@ -11,8 +12,9 @@ from lib import common
 from lib.common import cps
 from translate import speccases
 
-THEOREMS = ['spec_ip_cases', 'spec_ip_cases_zh', 'spec_guid_cases', 'spec_boolean_cases', 'spec_case_counts']
-GEN = ['chartables', 'regexes', 'emojitable', 'preprocess', 'speccases']
+THEOREMS = ['spec_ip_cases', 'spec_ip_cases_zh', 'spec_guid_cases', 'spec_boolean_cases', 'spec_hashtag_cases',
+            'spec_mention_cases', 'spec_email_cases', 'spec_url_cases', 'spec_url_cases_zh', 'spec_case_counts']
+GEN = ['chartables', 'regexes', 'emojitable', 'preprocess', 'speccases', 'tlds', 'pytables', 'urlgrammar']
 PROPS_MODULE = 'RTV.Props.C19'
 
 
@@ -45,7 +47,10 @@ def model_cases(ctx):
     common.setup_repo_imports()
     import recognizers_sequence
     import recognizers_choice
-    from recognizers_sequence.sequence.sequence_recognizer import recognize_ip_address, recognize_guid
+    from recognizers_sequence.sequence.sequence_recognizer import (recognize_ip_address, recognize_guid, recognize_hashtag,
+                                                                  recognize_mention, recognize_email, recognize_url)
+    simple = {'hashtag': recognize_hashtag, 'mention': recognize_mention, 'email': recognize_email,
+              'urlEn': recognize_url, 'urlZh': recognize_url}
     from recognizers_choice import recognize_boolean
     common.assert_tree_modules(recognizers_sequence, recognizers_choice)
     fam = speccases.families()
@@ -58,6 +63,12 @@ def model_cases(ctx):
                 op, culture = 'spec.ip\tzh\t' + cps(inp), 'zh-cn'
             elif key == 'guid':
                 op, culture = 'spec.guid\t' + cps(inp), 'en-us'
+            elif key in ('hashtag', 'mention', 'email'):
+                op, culture = 'spec.seq\t%s\t%s' % (key, cps(inp)), 'en-us'
+            elif key == 'urlEn':
+                op, culture = 'spec.seq\turl\t' + cps(inp), 'en-us'
+            elif key == 'urlZh':
+                op, culture = 'spec.seq\turlzh\t' + cps(inp), 'zh-cn'
             else:
                 op, culture = 'spec.bool\t' + cps(inp), 'en-us'
             lines.append(op)
@@ -67,6 +78,9 @@ def model_cases(ctx):
         try:
             if key in ('ipEn', 'ipZh'):
                 rs = recognize_ip_address(inp, culture)
+                impl = ';'.join('%s:%s:%s' % (cps(r.type_name), cps(r.text), cps(str(r.resolution['value']))) for r in rs)
+            elif key in simple:
+                rs = simple[key](inp, culture)
                 impl = ';'.join('%s:%s:%s' % (cps(r.type_name), cps(r.text), cps(str(r.resolution['value']))) for r in rs)
             elif key == 'guid':
                 rs = recognize_guid(inp, culture)
